@@ -331,6 +331,9 @@ func c17Gen(rng *gen.Rng, population string) *c17Hist {
 			case 2:
 				c += "\n" + content() + "\n\n"
 			}
+			if rng.Chance(15) {
+				c = "" // a file of no bytes at all (touch, : > f): write() never makes one
+			}
 			h.Ops = append(h.Ops, c17Op{Kind: "ext-create", Path: p, Content: c})
 			files[p] = true
 		}
@@ -450,6 +453,9 @@ func c17Gen(rng *gen.Rng, population string) *c17Hist {
 					c := content() + "\n" + content()
 					if rng.Chance(50) {
 						c += "\n"
+					}
+					if rng.Chance(20) {
+						c = ""
 					}
 					h.Ops = append(h.Ops, c17Op{Kind: "ext-create", Path: p, Content: c})
 					files[p] = true
